@@ -525,6 +525,7 @@ type c14CloseConf struct {
 	Both      bool  `json:"both_ends"`
 	Openers   int   `json:"openers"`
 	Callbacks bool  `json:"callbacks"`
+	Backlog   int   `json:"accept_backlog"` // >0: nobody accepts; this many streams are opened before Close (1024 fill the accept channel)
 }
 
 type c14CloseReport struct {
@@ -557,13 +558,35 @@ func c14CloseNode(args []string) {
 	k.install()
 	rng := rand.New(rand.NewSource(cf.Seed))
 	base := takeCensus(shmPrefix())
-	p, err := newSessionPair(pairOpt{memfd: cf.Memfd, sizes: smallSizes(256, 30, 4096, 70), bufCap: 2 << 20})
+	p, err := newSessionPair(pairOpt{memfd: cf.Memfd, sizes: smallSizes(256, 30, 4096, 70), bufCap: 2 << 20, noAccept: cf.Backlog > 0})
 	if err != nil {
 		childReply(c14CloseReport{Note: "pair: " + err.Error()})
 		return
 	}
 	childLog("READY")
 	var rep c14CloseReport
+	if cf.Backlog > 0 {
+		// an application that stopped accepting: the accept channel fills up and the event loop parks on it; a local
+		// Session.Close must still get through (its shutdown channel releases the parked loop) and release everything
+		cf.Streams = 0
+		for i := 0; i < cf.Backlog; i++ {
+			st, err := p.client.OpenStream()
+			if err != nil {
+				break
+			}
+			st.BufferWriter().WriteBytes(make([]byte, 64))
+			if st.Flush(false) != nil {
+				break
+			}
+		}
+		parked := waitUntil(5*time.Second, func() bool {
+			return len(p.server.acceptCh) == cap(p.server.acceptCh) && !fenceOnce(100*time.Millisecond)
+		})
+		if parked {
+			childLog("LOOP-PARKED-ON-ACCEPT-BACKLOG")
+			rep.Note += "loop parked on the accept backlog; "
+		}
+	}
 	var wg sync.WaitGroup
 	var workers, returned int32
 	var rt int64
@@ -651,6 +674,9 @@ func c14CloseNode(args []string) {
 			if cf.Both && i%2 == 1 {
 				target = p.server
 			}
+			if cf.Backlog > 0 && (i == 0 || !cf.Both) {
+				target = p.server // the session whose accept backlog is full is the one being closed
+			}
 			target.Close()
 			target.Close()
 			atomic.AddInt32(&closeReturned, 1)
@@ -714,6 +740,7 @@ type c14Case struct {
 	Closers      int    `json:"closers"`
 	Both         bool   `json:"both_ends"`
 	Openers      int    `json:"openers"`
+	Backlog      int    `json:"accept_backlog,omitempty"`
 	Seed         int64  `json:"seed"`
 }
 
@@ -759,7 +786,7 @@ func f2Classify(stderr, log string, directed string) (bool, string) {
 func runC14Case(c *checkCtx, cs c14Case) (out c14Outcome) {
 	violate := func(format string, a ...interface{}) { out.viol = append(out.viol, fmt.Sprintf(format, a...)) }
 	if cs.Kind == "close-storm" {
-		conf := c14CloseConf{Closers: cs.Closers, Streams: cs.Streams, Memfd: cs.Memfd, Seed: cs.Seed, Both: cs.Both, Openers: cs.Openers}
+		conf := c14CloseConf{Closers: cs.Closers, Streams: cs.Streams, Memfd: cs.Memfd, Seed: cs.Seed, Both: cs.Both, Openers: cs.Openers, Backlog: cs.Backlog}
 		cj, _ := json.Marshal(conf)
 		cp, err := c.spawnChild("c14close", nil, "C14_CONF="+string(cj))
 		if err != nil {
@@ -1120,6 +1147,10 @@ func checkDeath(c *checkCtx) {
 	for i := 0; i < c.pick(10, 120); i++ {
 		add(c14Case{Kind: "close-storm", Closers: []int{1, 2, 8}[i%3], Streams: 1 + i%6, Memfd: i%2 == 0, Both: i%4 >= 2, Openers: i % 3})
 	}
+	for i := 0; i < c.pick(3, 12); i++ {
+		// Close of a session whose accept backlog is full (event loop parked on it) or nearly full
+		add(c14Case{Kind: "close-storm", Closers: []int{1, 2, 8}[i%3], Memfd: i%2 == 0, Both: i%4 >= 2, Backlog: []int{1032, 1100, 1000}[i%3]})
+	}
 	add(c14Case{Kind: "directed-retain", SurvivorRole: "client", Streams: 2})
 	add(c14Case{Kind: "directed-stallflush", SurvivorRole: "client", Streams: 2})
 	c.setExtra("fault_list_size", full)
@@ -1143,8 +1174,11 @@ func checkDeath(c *checkCtx) {
 				name := fmt.Sprintf("death-%d-%s-%s-%d", cs.Idx, cs.Kind, cs.Point, cs.K)
 				c.count("cases."+cs.Kind, 1)
 				if out.reached {
-					c.nontrivial(fmt.Sprintf("%s/%s/%v/%s/%s/%d/%d", cs.Kind, cs.SurvivorRole, cs.Memfd, cs.Action, cs.Point, cs.K, cs.HsStep))
+					c.nontrivial(fmt.Sprintf("%s/%s/%v/%s/%s/%d/%d/%d", cs.Kind, cs.SurvivorRole, cs.Memfd, cs.Action, cs.Point, cs.K, cs.HsStep, cs.Backlog))
 					c.count("fault points reached", 1)
+					if strings.Contains(out.crep.Note, "loop parked on the accept backlog") {
+						c.count("Session.Close while the event loop was parked on a full accept backlog", 1)
+					}
 				}
 				c.count("survivor round trips before the fault", out.rep.RoundTrips+out.crep.RoundTrips)
 				c.count("callback streams checked", int64(out.rep.CbStreams))
